@@ -1,6 +1,7 @@
 package conc
 
 import (
+	"context"
 	"fmt"
 	"sync"
 	"time"
@@ -163,5 +164,109 @@ func runRootHandle(c *eng.Ctx, prop string, next func() (int, bool)) {
 }
 
 func init() {
-	core.C11RootHandle = func(c *eng.Ctx, next func() (int, bool)) { runRootHandle(c, "C11", next) }
+	core.C11RootHandle = func(c *eng.Ctx, next func() (int, bool)) {
+		runRootHandle(c, "C11", next)
+		runRootHandleChildren(c, "C11", next)
+	}
+}
+
+// runRootHandleChildren: scopes created ON the root scope handle (root.CreateScope, and a scope
+// below that one) are its descendants like the children of any other scope: closing the root
+// scope through its handle disposes them - deepest first - before the root scope disposes its
+// own instances (C11), and afterwards they report the disposed error (C13).
+func runRootHandleChildren(c *eng.Ctx, prop string, next func() (int, bool)) {
+	for _, ctxKind := range []string{"nil-context", "own-context"} {
+		idx, mine := next()
+		if !mine {
+			continue
+		}
+		c.R.Begin(idx)
+		viol := func(clause, detail string) {
+			c.R.Violation(eng.Violation{Prop: prop, Clause: clause, Sig: prop + "/" + clause + ":scopes-created-on-the-root-scope-handle:" + ctxKind, Case: idx, CaseID: "root-handle-children-" + ctxKind,
+				Detail: ctxKind + ": " + detail, Replay: map[string]any{"fixture": "root-scope-handle-children", "context": ctxKind}})
+		}
+		func() {
+			defer func() {
+				if p := recover(); p != nil {
+					viol("panic", fmt.Sprintf("panic: %v", p))
+				}
+			}()
+			w := &rhWorld{entered: make(chan struct{}), release: make(chan struct{})}
+			rhMu.Lock()
+			rhCur = w
+			rhMu.Unlock()
+			var mu sync.Mutex
+			n := 0
+			coll := godi.NewCollection()
+			if err := coll.AddSingleton(rhNewPool); err != nil {
+				panic(err)
+			}
+			if err := coll.AddScoped(func(p *rhPool) *rhSession {
+				mu.Lock()
+				defer mu.Unlock()
+				n++
+				return &rhSession{rhGet(), p, fmt.Sprintf("s%d", n)}
+			}); err != nil {
+				panic(err)
+			}
+			prov, err := coll.Build()
+			if err != nil {
+				panic(err)
+			}
+			root, err := godi.Resolve[godi.Scope](prov)
+			if err != nil {
+				panic(err)
+			}
+			mk := func(parent godi.Scope) godi.Scope {
+				var s godi.Scope
+				var err error
+				if ctxKind == "nil-context" {
+					s, err = parent.CreateScope(nil)
+				} else {
+					s, err = parent.CreateScope(context.Background())
+				}
+				if err != nil {
+					panic(err)
+				}
+				return s
+			}
+			child := mk(root)
+			grand := mk(child)
+			for _, s := range []godi.Scope{root, child, grand} { // s1 in the root scope, s2, s3 below
+				if _, err := godi.Resolve[*rhSession](s); err != nil {
+					panic(err)
+				}
+			}
+			done := make(chan struct{})
+			go func() { defer close(done); _ = root.Close() }()
+			if v := awaitOrDiagnose(done, 30*time.Second); !v.Done {
+				c.R.Inconclusive(idx, "closing the root scope handle did not finish within the watchdog")
+				c.R.Abandon(idx)
+				return
+			}
+			w.mu.Lock()
+			log := append([]string(nil), w.log...)
+			w.mu.Unlock()
+			var ends []string
+			for _, e := range log {
+				if len(e) > 4 && e[len(e)-4:] == ":end" {
+					ends = append(ends, e[:len(e)-4])
+				}
+			}
+			if prop == "C11" {
+				if got := fmt.Sprint(ends); got != "[s3 s2 s1]" {
+					viol("descendant-instance-closed-after-ancestor-instance", fmt.Sprintf("root.Close() (the handle Resolve[godi.Scope](provider) returns) disposed %v; the root scope owns s1, a scope created on it owns s2 and a scope below that one s3: want [s3 s2 s1], all of them, descendants first", ends))
+				}
+			} else {
+				for name, s := range map[string]godi.Scope{"the scope created on the root scope handle": child, "its child": grand} {
+					if _, err := godi.Resolve[*rhSession](s); err == nil {
+						viol("descendant-survives-close", name+" still resolves after root.Close() has returned")
+					}
+				}
+			}
+			_ = prov.Close()
+			c.R.Count("root_handle_children_cases", 1)
+		}()
+		c.R.End(idx, eng.Hash("root-handle-children", prop, ctxKind), true)
+	}
 }
